@@ -34,6 +34,9 @@ def observe(spec, inputs):
     m2 = plspec.build(n, spec["model"], env)
     F, R = _dicts(n, spec, inputs)
     try:
+        if spec.get("warm"):
+            C.warm(m1)
+            C.warm(m2)
         a = m1.assume(dict(F))
         r1 = a.evaluate(dict(R))
         U = dict(R)
